@@ -15,7 +15,7 @@ PKG = "vcr/verifier"
 HARNESS = ["vcr/verifier/zz_verif_c01_test.go"]
 
 REQUIRED = ["check_order_irrelevant_for_accept", "valid_only_if", "key_is_from_the_issuers_document",
-            "vp_valid_only_if", "vp_check_order_irrelevant_for_accept", "empty_presentation_holder_is_not_checked",
+            "vp_valid_only_if", "vp_every_other_credential_is_signature_checked", "fact_check_signature_flag_is_per_credential", "vp_check_order_irrelevant_for_accept", "empty_presentation_holder_is_not_checked",
             "tamper_evident", "tamper_evident_jwt", "tamper_evident_vp", "undefined_member_unsigned",
             "own_output_verifies_ld", "own_output_verifies_jwt", "own_presentation_verifies",
             "fact_verify_check_sequence", "fact_doVerifyVP_check_sequence", "fact_jsonldProof_check_sequence",
@@ -170,12 +170,12 @@ def run(ctx):
             n_mix += 1
             if op.get("mut") == "vp-mix-forged" and impl[i].startswith("ok"):
                 forged_accepted += 1
-                ctx.violation("C01:presentation-with-forged-credential-accepted:" + re.sub(r"[^A-Za-z,\[\]-]", "", op["label"]),
+                ctx.violation("C01:presentation-with-forged-credential-accepted:" + (op.get("doc") or {}).get("fmt", "") + (":after-self-attested" if re.search(r"self,(?:[a-z-]+,)*FORGED", op["label"]) else ""),
                               f"{op['label']}: VerifyVP reports a presentation valid that carries a credential whose signature does not verify under a key of its issuer",
                               "forged-in-vp.jsonl", replay_text(i))
             if not op.get("mut") and not impl[i].startswith("ok"):
                 forged_accepted += 1
-                ctx.violation("C01:genuine-mixed-presentation-rejected:" + re.sub(r"[^A-Za-z,\[\]-]", "", op["label"]),
+                ctx.violation("C01:genuine-mixed-presentation-rejected:" + (op.get("doc") or {}).get("fmt", ""),
                               f"{op['label']}: a presentation of genuine credentials and proof-less self-attested ones is rejected: {impl[i]}",
                               "mixed-vp-rejected.jsonl", replay_text(i))
     ctx.oblige("oracle:forged-credential-in-presentation-rejected-in-every-position(impl)", forged_accepted == 0 and (n_mix > 0 or bool(ctx.replay)),
